@@ -69,7 +69,10 @@ class Ctx:
     def __init__(self, pid, tier, seed):
         self.pid, self.tier, self.seed = pid, tier, seed
         self.t0 = time.time()
-        self.scratch = tempfile.mkdtemp(prefix="verif_%s_" % pid, dir=os.environ.get("VERIF_TMP", "/tmp"))
+        base = os.environ.get("VERIF_TMP", "/tmp")
+        self._sweep_stale(base)
+        self.scratch = tempfile.mkdtemp(prefix="verif_%s_" % pid, dir=base)
+        open(os.path.join(self.scratch, "owner.pid"), "w").write(str(os.getpid()))
         self.cov = {"states": 0, "transitions": 0, "traces_validated_against_impl": 0, "evaluations": 0,
                     "distinct_nontrivial": 0, "samples": [], "rule": "", "checker_cmd": "", "trusted_base": [],
                     "model_runs": [], "notes": []}
@@ -80,6 +83,25 @@ class Ctx:
         self._n = 0
         self._distinct = set()
         self.quick = tier == "quick"
+
+    @staticmethod
+    def _sweep_stale(base):
+        """remove scratch directories of checks that were killed before they could clean up"""
+        try:
+            for n in os.listdir(base):
+                d = os.path.join(base, n)
+                if not n.startswith("verif_C") or not os.path.isdir(d):
+                    continue
+                try:
+                    owner = int(open(os.path.join(d, "owner.pid")).read())
+                    os.kill(owner, 0)
+                except (ProcessLookupError, ValueError):
+                    shutil.rmtree(d, ignore_errors=True)
+                except (FileNotFoundError, PermissionError):
+                    if time.time() - os.path.getmtime(d) > 6 * 3600:
+                        shutil.rmtree(d, ignore_errors=True)
+        except OSError:
+            pass
 
     # ---------------------------------------------------------------- utilities
     def log(self, *a):
